@@ -97,10 +97,12 @@ static inline i128 fmod_(i128 x, i128 a){ i128 r = S_rem(x, iabs(a)); return r <
 static inline bool c_bot(C c){ return c.f0 != 0; }
 static inline i128 c_a(C c){ return zraw(c.f1); }
 static inline i128 c_b(C c){ return zraw(c.f2); }
-/* representation invariant ("aZ + b, b in Z and a in N", "standard form 0 <= b < a for a != 0"); z bounds the
+/* representation invariant ("aZ + b, b in Z and a in N", "standard form 0 <= b < a for a != 0"; bottom is only ever
+ * made by congruence(false), i.e. flag + 1Z+0, which is what makes operator== an equality of values); z bounds the
  * magnitudes (a model matter, not a property of the class) */
 static inline bool c_okz(C c, i128 z){
-  return c.f0 <= 1 && inb(c_a(c), z) && inb(c_b(c), z) && c_a(c) >= 0 && (c_a(c) == 0 || (0 <= c_b(c) && c_b(c) < c_a(c))); }
+  return c.f0 <= 1 && inb(c_a(c), z) && inb(c_b(c), z) && c_a(c) >= 0 && (c_a(c) == 0 || (0 <= c_b(c) && c_b(c) < c_a(c)))
+      && (c.f0 == 0 || (c_a(c) == 1 && c_b(c) == 0)); }
 static inline bool c_ok(C c){ return c_okz(c, ZB); }
 /* concretisation: v is described by aZ+b:   a = 0 ? v = b : (v - b) mod a = 0 */
 static inline bool ab_has(i128 a, i128 b, i128 v){ return dvd(iabs(a), v - b); }
@@ -129,20 +131,24 @@ static inline i128 shl_(i128 v, i128 k){ return (i128)((u128)v << (unsigned)k); 
 #define M_ S_mul
 #define D_ S_div
 #define R_ S_rem
+/* (an instance is vacuous when an argument, or an uninterpreted result it mentions, lies outside the modelled range:
+ * inside, the C arithmetic of the instance cannot wrap) */
+#define RNG(v) inb(v, ZLIM)
 /* d | a, a | x  ==>  d | x */
-static inline bool T_TRANS(i128 d, i128 a, i128 x){ return IMP(dvd(d, a) && dvd(a, x), dvd(d, x)); }
+static inline bool T_TRANS(i128 d, i128 a, i128 x){ return !(RNG(d) && RNG(a) && RNG(x)) || IMP(dvd(d, a) && dvd(a, x), dvd(d, x)); }
 /* w = u + v (w = u - v), d | u, d | v  ==>  d | w */
-static inline bool T_SUM(i128 d, i128 u, i128 v, i128 w){ return IMP(w == u + v && dvd(d, u) && dvd(d, v), dvd(d, w)); }
-static inline bool T_DIFF(i128 d, i128 u, i128 v, i128 w){ return IMP(w == u - v && dvd(d, u) && dvd(d, v), dvd(d, w)); }
+static inline bool T_SUM(i128 d, i128 u, i128 v, i128 w){ return !(RNG(d) && RNG(u) && RNG(v) && RNG(w)) || IMP(w == u + v && dvd(d, u) && dvd(d, v), dvd(d, w)); }
+static inline bool T_DIFF(i128 d, i128 u, i128 v, i128 w){ return !(RNG(d) && RNG(u) && RNG(v) && RNG(w)) || IMP(w == u - v && dvd(d, u) && dvd(d, v), dvd(d, w)); }
 /* normal form: for a != 0, rb = b mod |a| lies in [0, |a|) and |a| | v - rb  <=>  |a| | v - b */
-static inline bool T_NF(i128 a, i128 b, i128 v){ return a == 0 || (0 <= fmod_(b, a) && fmod_(b, a) < iabs(a) && dvd(iabs(a), v - fmod_(b, a)) == dvd(iabs(a), v - b)); }
+static inline bool T_NF(i128 a, i128 b, i128 v){ return !(RNG(a) && RNG(b) && RNG(v)) || a == 0 || (0 <= fmod_(b, a) && fmod_(b, a) < iabs(a) && dvd(iabs(a), v - fmod_(b, a)) == dvd(iabs(a), v - b)); }
 /* d | u, |u| < |d|  ==>  u = 0 */
-static inline bool T_SMALL(i128 d, i128 u){ return IMP(dvd(d, u) && iabs(u) < iabs(d), u == 0); }
+static inline bool T_SMALL(i128 d, i128 u){ return !(RNG(d) && RNG(u)) || IMP(dvd(d, u) && iabs(u) < iabs(d), u == 0); }
 /* d | u  ==>  d | u * c  and  d * c | u * c */
-static inline bool T_MULR(i128 d, i128 u, i128 c){ return IMP(dvd(d, u), dvd(d, M_(u, c))); }
-static inline bool T_MULB(i128 d, i128 u, i128 c){ return IMP(dvd(d, u), dvd(M_(d, c), M_(u, c))); }
-/* x = y * (x / y) + x % y  (y != 0) */
-static inline bool T_DIVID(i128 x, i128 y){ return y == 0 || x == M_(y, D_(x, y)) + R_(x, y); }
+static inline bool T_MULR(i128 d, i128 u, i128 c){ return !(RNG(d) && RNG(u) && RNG(c) && RNG(M_(u, c))) || IMP(dvd(d, u), dvd(d, M_(u, c))); }
+static inline bool T_MULB(i128 d, i128 u, i128 c){ return !(RNG(d) && RNG(u) && RNG(c) && RNG(M_(u, c)) && RNG(M_(d, c))) || IMP(dvd(d, u), dvd(M_(d, c), M_(u, c))); }
+/* y != 0  ==>  x = y * (x / y) + x % y,  |y * (x / y)| <= |x|,  |x / y| <= |x|,  |x % y| < |y|, x % y is 0 or of the sign of x */
+static inline bool T_DIVID(i128 x, i128 y){
+  return !(RNG(x) && RNG(y)) || y == 0 || (inb(M_(y, D_(x, y)), iabs(x) + 1) && inb(D_(x, y), iabs(x) + 1) && inb(R_(x, y), iabs(y)) && x == M_(y, D_(x, y)) + R_(x, y) && (R_(x, y) == 0 || (R_(x, y) > 0) == (x > 0))); }
 #if defined(ZM_SMALL)
 #define LEM(e) 1
 #else
